@@ -74,6 +74,7 @@ type Report struct {
 	onlyCase string
 	verifDir string
 	maxKeep  int
+	bailOnce sync.Once
 }
 
 // KnownFinding is one line of KNOWN_FINDINGS.txt.
@@ -437,6 +438,20 @@ func Main(prop, level string, run func(r *Report)) {
 	}
 	r := newReport(prop, level)
 	run(r)
+	r.finishProcess()
+}
+
+// Bail ends the process now, reporting what has been observed so far (used by watchdogs that have
+// caught a library call that will never return: the goroutine cannot be killed, the process can).
+func (r *Report) Bail() { r.finishProcess() }
+
+func (r *Report) finishProcess() {
+	r.bailOnce.Do(r.finishProcessOnce)
+	select {} // another goroutine is finishing
+}
+
+func (r *Report) finishProcessOnce() {
+	prop := r.p.Prop
 	collectRaceReports(r)
 	p := r.snapshot()
 	if out := os.Getenv("VERIF_PART_OUT"); out != "" {
